@@ -62,6 +62,7 @@ type Exec struct {
 	callsSeen      map[string]bool // callee display names used through contracts
 	pristine       *State
 	entryLets      map[string]Val
+	argLets        bool // arg0, arg1, … name the receiver / parameters (clauses taken from an interface contract)
 	inEntry        bool
 	assignRhs      map[*ssa.Function]map[token.Pos]string
 	inHook         bool
@@ -688,6 +689,14 @@ func (x *Exec) Run() {
 	}
 	x.installTypeInvariantHook()
 	s := x.entryState()
+	if x.argLets {
+		if x.entryLets == nil {
+			x.entryLets = map[string]Val{}
+		}
+		for i, p := range x.fn.Params {
+			x.entryLets[fmt.Sprintf("arg%d", i)] = x.params[p.Name()]
+		}
+	}
 	if x.isPkgInit() && x.fn.Pkg != nil {
 		// the initialiser runs once: its guard is still false
 		if g, ok := x.fn.Pkg.Members["init$guard"].(*ssa.Global); ok {
